@@ -1388,6 +1388,29 @@ def _written_members(f):
                 if b and b['k'] == 'mem' and f.nodes[b['b']] and f.nodes[b['b']]['k'] == 'this': written.add(ch[0])
     return written
 
+@rule('copyselect')
+def copyselect(F, R):
+    """C15.copy-ctor: wherever a back / back11 machine is constructed from ONE argument of its own type - const or not, lvalue or
+    rvalue - overload resolution selects the copy constructor (which goes through do_copy), not the constructor template that
+    forwards its arguments to the front-end: that one builds a fresh machine in its initial configuration (D36)."""
+    for f in F.funcs:
+        if not f.nodes: continue
+        for i, n in enumerate(f.nodes):
+            if not n or n['k'] != 'ctor' or len(n.get('args', [])) != 1: continue
+            t = strip_cvref(F.strs[n['t']])
+            be = 'back11' if t.startswith('boost::msm::back11::state_machine<') else 'back' if t.startswith('boost::msm::back::state_machine<') else None
+            if be is None or n.get('q') != 'boost::msm::%s::state_machine::state_machine' % be: continue
+            at = f.type_of(n['args'][0])
+            if at is None or strip_cvref(at) != t: continue
+            g = F.bykey.get(n.get('fk'))
+            sp = g.d.get('sp') if g else None
+            cat = ('const ' if at.strip().startswith('const ') else '') + ('rvalue' if f.nodes[n['args'][0]] and f.nodes[n['args'][0]].get('k') in ('cast', 'call', 'xvalue') else 'lvalue')
+            R.anchor('copy-select:%s' % be); R.anchor('copy-select:%s:%s' % (be, 'const' if cat.startswith('const') else 'non-const'))
+            ok = sp in ('copy_ctor', 'move_ctor')
+            R.ob('C15.copy-ctor', ok, {'in': f.q, 'at': f.at(i), 'argument': cat, 'selected': (g.loc if g else None), 'kind': sp})
+            if not ok:
+                R.find('C15.copy-ctor', g if g is not None else f, 'forwarding-ctor', 'constructing a %s machine from a %s of its own type (at %s) selects the constructor at %s (%s), not the copy constructor: the new machine starts in its initial configuration with empty history and queues instead of being a copy' % (be, cat, f.at(i), g.loc if g else '?', sp or 'argument-forwarding template'), instance=Facts.short(t, 120))
+
 @rule('copyspecial')
 def copyspecial(F, R):
     """C15.fields: a user-provided copy constructor / copy assignment of a back-end class copies every data member of the class
